@@ -1,3 +1,19 @@
-import LocustModel.Proto
-/- Driver stub for C08 (replaced when the property's model is built). -/
-def main : IO Unit := LM.Proto.runDriver fun _ => "?\t?"
+import LocustModel.Store.Proto
+/-
+  Driver for C08.  Input: a history line (see `LocustModel/Store/Proto.lean`).
+  Output:  <model dump> TAB <spec dump> [TAB compaction-null-loss]
+    (third field: classifier of the open C07 finding — a compaction merged rows containing a NULL cell)
+    model dump = what the machine model (mirror of ingest_efficient / wal_flush / recover) shows after the last step;
+    spec dump  = the acknowledged rows, columns and tables computed from the history alone.
+-/
+namespace LM.DrvC08
+open LM.Proto LM.Store.Drv
+
+def step (line : String) : String :=
+  match runLine line with
+  | none => "bad-op\tbad-op"
+  | some (s, _) => dumpModel s ++ "\t" ++ dumpSpec s ++ (if s.nullCompacted then "\tcompaction-null-loss" else "")
+
+end LM.DrvC08
+
+def main : IO Unit := LM.Proto.runDriver LM.DrvC08.step
